@@ -947,6 +947,21 @@ def _worker(job):
                 out["timeouts"].append({"group": "stack-readout", "grammar": gtext, "passes": list(PASS_NAMES)})
             finally:
                 signal.alarm(0)
+    if prop == "C02":
+        # rule graphs (cyclic / self / undefined references in optimizer-relevant shapes): only the optimizer's output is
+        # compared with the mirror, as trees - most of these grammars are left-recursive and are not parsed with
+        import eng_front as _EF
+        for gtext in _EF.rule_graphs(rng, 120 if tier == "thorough" else 25):
+            if "undefined_rule" in gtext:
+                continue
+            signal.alarm(60)
+            try:
+                eval_grammar(prop, rng, "rule-graph", gtext, None, choose_passes(rng, rng.randrange(3)), [], out)
+                out["stats"]["rule_graph_grammars"] += 1
+            except Timeout:
+                out["timeouts"].append({"group": "rule-graph", "grammar": gtext, "passes": list(PASS_NAMES)})
+            finally:
+                signal.alarm(0)
     if prop in ("C02", "C16") or (tier == "thorough" and prop in ("C01", "C04")):
         # the shapes the skip and squash passes rewrite x every short input over a small alphabet
         for kind in ("skip", "squash"):
